@@ -1,0 +1,61 @@
+//go:build verif
+
+/*
+ * Read-only accessors of z.Allocator for the /verif harness (build tag verif; add-only).
+ */
+
+package z
+
+import (
+	"sync/atomic"
+	"unsafe"
+)
+
+// VerifChunkLens returns len(a.buffers[i]) for every slot.
+func (a *Allocator) VerifChunkLens() []int {
+	a.Lock()
+	defer a.Unlock()
+	out := make([]int, len(a.buffers))
+	for i, b := range a.buffers {
+		out[i] = len(b)
+	}
+	return out
+}
+
+// VerifChunkBases returns the address of the first byte of every non-empty chunk (0 for empty slots).
+func (a *Allocator) VerifChunkBases() []uintptr {
+	a.Lock()
+	defer a.Unlock()
+	out := make([]uintptr, len(a.buffers))
+	for i, b := range a.buffers {
+		if len(b) > 0 {
+			out[i] = uintptr(unsafe.Pointer(unsafe.SliceData(b)))
+		}
+	}
+	return out
+}
+
+// VerifCompIdx returns the packed (chunk index << 32 | offset) word.
+func (a *Allocator) VerifCompIdx() uint64 { return atomic.LoadUint64(&a.compIdx) }
+
+// VerifLocate maps a slice handed out by the allocator to (chunk index, offset)
+// by comparing addresses with the chunk table; ok is false when the slice does
+// not lie completely inside one chunk.
+func (a *Allocator) VerifLocate(b []byte) (chunk, off int, ok bool) {
+	p := uintptr(unsafe.Pointer(unsafe.SliceData(b)))
+	a.Lock()
+	defer a.Unlock()
+	for i, c := range a.buffers {
+		if len(c) == 0 {
+			continue
+		}
+		base := uintptr(unsafe.Pointer(unsafe.SliceData(c)))
+		if p >= base && p+uintptr(len(b)) <= base+uintptr(len(c)) {
+			return i, int(p - base), true
+		}
+	}
+	return -1, 0, false
+}
+
+// VerifLog2 exposes log2.
+func VerifLog2(sz int) int { return log2(sz) }
